@@ -200,7 +200,7 @@ def run_unit(repo, unit, builddir, tier):
     out['solver_s'] = round((r.get('smt_ms') or 0) / 1000.0, 3)
     out['wall_s'] = round(r.get('wall_s', 0) + 0.0, 2)
     out['verus_functions'] = r.get('functions', [])
-    out['canary'] = {'status': rc.get('status'), 'errors': rc.get('errors', 0)}
+    out['canary'] = {'status': rc.get('status'), 'errors': rc.get('errors', 0), 'points': spc.canary_points}
     out['status'] = r['status']
     if r['status'] == 'undecided':
         out['reason'] = r.get('reason', '')
@@ -227,8 +227,9 @@ def run_unit(repo, unit, builddir, tier):
         out['status'] = 'undecided'
         out['reason'] = 'zero obligations generated'
         return out
-    if rc.get('status') != 'failed':
+    if rc.get('status') != 'failed' or rc.get('errors', 0) < spc.canary_points:
         out['status'] = 'undecided'
-        out['reason'] = 'canary (ensures false) did not fail: status=%s — assumptions may be contradictory' % rc.get('status')
+        out['reason'] = 'canary (ensures false on %d functions) did not fail everywhere: status=%s errors=%s — assumptions may be contradictory' % (
+            spc.canary_points, rc.get('status'), rc.get('errors'))
         return out
     return out
